@@ -103,10 +103,12 @@ def _doc_kwargs(doc):
     return dict((str(k), v) for k, v in doc.items())
 
 
-def apply_ops(w, tx):
+def apply_ops(w, tx, hook=None):
     from whoosh import query
     for op in tx["ops"]:
         kind = op[0]
+        if hook is not None:
+            hook("feed")
         if kind == "add":
             w.add_document(**_doc_kwargs(op[1]))
         elif kind == "upd":
@@ -156,8 +158,9 @@ def commit_kwargs(tx):
     raise ValueError(c)
 
 
-def exec_tx(d, tx):
-    """Execute one transaction on directory d. Used identically by the monitored run and by the SIGKILL victim."""
+def exec_tx(d, tx, rt=None):
+    """Execute one transaction on directory d. Used identically by the monitored run and by the SIGKILL victim.
+    rt (monitored multi-process runs only): {"hook": fn(kind)} -> receives "mpw" = the MpWriter."""
     from whoosh import index, writing
     if tx.get("create"):
         ix = index.create_in(d, make_schema())
@@ -175,6 +178,27 @@ def exec_tx(d, tx):
             apply_ops(bw, tx)
         finally:
             bw.close()
+        return
+    if front == "mp":
+        from whoosh.multiproc import MpWriter
+        w = MpWriter(ix, procs=tx.get("procs", 2), batchsize=tx.get("batch", 1), multisegment=bool(tx.get("multiseg")),
+                     **wk)
+        hook = None
+        if rt is not None:
+            rt["mpw"] = w
+            hook = rt.get("hook")
+        try:
+            apply_ops(w, tx, hook)
+            if hook is not None:
+                hook("fed")
+            if fin == "cancel":
+                w.cancel()
+            else:
+                w.commit(**commit_kwargs(tx))
+        finally:
+            if rt is not None:
+                rt["alive_at_return"] = sum(1 for t in w.tasks if t.is_alive())
+            reap_children(w)
         return
     if front == "async":
         aw = writing.AsyncWriter(ix, writerargs=wk)
@@ -211,6 +235,46 @@ def exec_tx(d, tx):
             pass
     else:
         raise ValueError(fin)
+
+
+def reap_children(w):
+    """MpWriter.cancel() only flags its own copy of the task objects: the sub-writer processes live on, blocked on the job
+    queue (non-daemonic: they would also block this interpreter's exit). The harness kills what is left."""
+    import signal
+    for t in list(getattr(w, "tasks", ())):
+        try:
+            if t.is_alive():
+                try:
+                    os.kill(t.pid, signal.SIGCONT)
+                except OSError:
+                    pass
+                t.kill()
+            t.join(5)
+        except Exception:  # noqa
+            pass
+
+
+_FORK_HOOK = []
+
+
+def install_fork_hook():
+    """Sub-writer processes are forked from the tapped parent: switch the (inherited) tap off in every forked child, so that the
+    children run whoosh's real, buffered file objects and never call the monitor."""
+    if _FORK_HOOK:
+        return
+
+    def _child():
+        try:
+            from vf import tap as T
+            t = T._ACTIVE
+            if t is not None:
+                t.enabled = False
+                t.on_event = None
+                t.on_done = None
+        except Exception:  # noqa
+            pass
+    os.register_at_fork(after_in_child=_child)
+    _FORK_HOOK.append(True)
 
 
 # ----------------------------------------------------------------------
@@ -540,6 +604,48 @@ class TxRun(object):
         self.bounds = []            # bounds[k] = event index of the lock-release at which states[k+1] was clean
         self.pending = []           # (n, kind, name, variant, cuts, ("s", state index, orphans, leftover) | obs | EvalFailure)
         self.ck_failure = None
+        # multi-process transactions (front "mp"): rt is the run-time record shared with exec_tx
+        self.mp = None
+        self.mprng = random.Random("c02-mp:%d:%d" % (idx, j))
+        self.parent_ids = set()     # segment ids the PARENT process created / touched (from its own tap events)
+        self.pre_ids = set(m.group(1) for m in (SEGFILE.match(f) for f in os.listdir(d)) if m) if os.path.isdir(d) else set()
+        self.nsamples = {}
+
+    # -- sub-writer processes (MpWriter) --------------------------------------
+    def child_pids(self):
+        w = (self.mp or {}).get("mpw")
+        out = []
+        for t in list(getattr(w, "tasks", ()) or ()):
+            try:
+                if t.pid is not None and t.is_alive():
+                    out.append(t.pid)
+            except Exception:  # noqa
+                pass
+        return out
+
+    def frozen(self):
+        """Context manager: every live sub-writer process is SIGSTOPped (and seen stopped) while the directory is copied, so
+        that a snapshot is the directory at ONE instant - the state a crash of the whole process group would leave."""
+        return _Frozen(self.child_pids() if self.mp is not None else [])
+
+    def sample(self, kind):
+        """Extra crash point between two storage events of the parent (the sub-writers may have written meanwhile)."""
+        cap = {"feed": 5, "fed": 1, "join": 8}.get(kind, 2)
+        if self.nsamples.get(kind, 0) >= cap:
+            return
+        self.nsamples[kind] = self.nsamples.get(kind, 0) + 1
+        if kind == "fed":
+            self.mp["phase"] = "finish"
+        try:
+            with self.tap.muted():
+                self.ctx.count("mp.samples." + kind)
+                self.crash_point(self.tap.n + 1, "sample-" + kind, "")
+                self.dirty = True
+        except Exception as e:  # noqa - a bug of the harness must never look like a whoosh failure
+            from vf.core import HarnessError
+            if isinstance(e, HarnessError):
+                raise
+            raise HarnessError("mp sample point failed: %r\n%s" % (e, _tb(e)))
 
     # -- snapshots -------------------------------------------------------
     def on_event(self, n, kind, name, detail):
@@ -556,6 +662,12 @@ class TxRun(object):
         ctx = self.ctx
         ctx.count("events.total")
         ctx.count("events.kind." + kind)
+        if self.mp is not None:
+            m = SEGFILE.match(os.path.basename(name))
+            if m:
+                self.parent_ids.add(m.group(1))
+            if self.child_pids():
+                self.dirty = True       # the sub-writers may have changed the directory since the last snapshot
         if self.dirty:
             self.crash_point(n, kind, name)
             self.dirty = False
@@ -577,7 +689,8 @@ class TxRun(object):
             with self.tap.muted():
                 if os.path.exists(ck):
                     shutil.rmtree(ck)
-                shutil.copytree(self.d, ck)
+                with self.frozen():
+                    shutil.copytree(self.d, ck)
                 self.ctx.count("checkpoints")
                 try:
                     c = comparable(evaluate(ck, "%d:%d" % (self.idx, self.j)))
@@ -621,13 +734,21 @@ class TxRun(object):
                     ctx.count("variant.flushed.shared")
                 if any(s.total - s.flushed >= 2 for s in sts):
                     variants.append("mid")
-            for variant in variants:
-                snap = os.path.join(self.root, "snap")
-                if os.path.exists(snap):
-                    shutil.rmtree(snap)
-                info = tap.materialize(self.d, snap, variant, self.rng)
-                if variant == "full" and kind != "end" and self.kill_prob and self.rng.random() < self.kill_prob:
-                    self.keep_kill_sample(n, kind, name, snap, sts)
+            if self.mp is not None and "mid" in variants and self.mprng.random() >= 0.25:
+                variants.remove("mid")      # (the parent's unflushed prefixes are enumerated by the single-process histories)
+            snaps = []
+            with self.frozen() as fz:
+                for variant in variants:
+                    snap = os.path.join(self.root, "snap-" + variant)
+                    if os.path.exists(snap):
+                        shutil.rmtree(snap)
+                    info = tap.materialize(self.d, snap, variant, self.rng)
+                    if variant == "full" and kind != "end" and self.kill_prob and self.rng.random() < self.kill_prob:
+                        self.keep_kill_sample(n, kind, name, snap, sts)
+                    snaps.append((variant, snap, info))
+            if self.mp is not None:
+                self.mp_observe(n, kind, fz, snaps[0][1])
+            for variant, snap, info in snaps:
                 ctx.count("evaluations.snapshot")
                 ctx.count("variant.%s.evals" % variant)
                 if os.path.exists(os.path.join(snap, "MAIN_WRITELOCK")):
@@ -639,6 +760,30 @@ class TxRun(object):
                     self.eval_failures = getattr(self, "eval_failures", 0) + 1
                 self.pending.append((n, kind, name, variant, info, self.slim(obs)))
                 shutil.rmtree(snap, ignore_errors=True)
+
+    def mp_observe(self, n, kind, fz, snap):
+        """Reach counters of a multi-process crash point: what of the sub-writers' work is inside the snapshot."""
+        ctx = self.ctx
+        phase = self.mp.get("phase", "feed")
+        ctx.count("mp.crash_points")
+        ctx.count("mp.crash_points.during_" + phase)
+        if fz.pids:
+            ctx.count("mp.crash_points.children_alive")
+            ctx.count("mp.children_frozen", len(fz.stopped))
+            if fz.unconfirmed:
+                ctx.count("mp.children_stop_unconfirmed", fz.unconfirmed)
+        ids = set(m.group(1) for m in (SEGFILE.match(f) for f in os.listdir(snap)) if m)
+        child = ids - self.pre_ids - self.parent_ids
+        if child:
+            ctx.count("mp.crash_points.with_subwriter_segment_files")
+            ctx.count("mp.crash_points.with_subwriter_segment_files.during_" + phase)
+        tmpd = os.path.join(snap, "MAIN.tmp")
+        if os.path.isdir(tmpd):
+            names = os.listdir(tmpd)
+            if any(f.endswith(".doclist") for f in names):
+                ctx.count("mp.crash_points.with_job_files")
+            if any(not f.endswith(".doclist") and not f.endswith(".ctmp") for f in names):
+                ctx.count("mp.crash_points.with_run_files")
 
     def slim(self, obs):
         """Keep only what the verdict needs: match against the clean states known so far; keep the full
@@ -661,11 +806,98 @@ class TxRun(object):
         self.kill_samples.append({"n": n, "kind": kind, "name": name, "dir": keep, "open": frozen})
 
 
-def run_history(ctx, idx):
+class _Frozen(object):
+    def __init__(self, pids):
+        self.pids = list(pids)
+        self.stopped = []
+        self.unconfirmed = 0
+
+    @staticmethod
+    def _state(pid):
+        try:
+            with open("/proc/%d/stat" % pid) as f:
+                return f.read().rsplit(")", 1)[1].split()[0]
+        except (OSError, IndexError):
+            return "X"
+
+    def __enter__(self):
+        import signal
+        import time
+        for pid in self.pids:
+            try:
+                os.kill(pid, signal.SIGSTOP)
+                self.stopped.append(pid)
+            except OSError:
+                pass
+        deadline = time.time() + 2.0
+        for pid in self.stopped:
+            while self._state(pid) not in ("T", "t", "Z", "X", "x"):
+                if time.time() > deadline:
+                    self.unconfirmed += 1
+                    break
+                time.sleep(0.0002)
+        return self
+
+    def __exit__(self, *a):
+        import signal
+        for pid in self.stopped:
+            try:
+                os.kill(pid, signal.SIGCONT)
+            except OSError:
+                pass
+
+
+def gen_mp_history(rng, k, tier):
+    """One history whose monitored transactions go through whoosh.multiproc.MpWriter (procs >= 2). k = ordinal of the mp case
+    (decides merged / multisegment and commit / cancel, so that every combination occurs whatever the seed)."""
+    g = Gen(rng, tier)
+    model, fs = {}, set(["id", "t", "n", "k"])
+    prelude = []
+    for _ in range(rng.randint(1, 3)):
+        tx = g.tx(model, fs, commit="nomerge", finish="commit", maxops=2, schema_ops=False, compound=(rng.random() < 0.7))
+        tx.pop("limitmb", None)
+        tx["ops"] = [o for o in tx["ops"] if o[0] != "add_reader"]
+        if not any(o[0] in ("add", "upd") for o in tx["ops"]):
+            tx["ops"].append(["add", g.doc(g.newkey(), fs)])
+        prelude.append(tx)
+        model, fs = model_apply(model, fs, tx)
+    ntx = 2 if tier == "quick" else rng.randint(2, 4)
+    txs = []
+    for j in range(ntx):
+        multiseg = bool((k + j) % 2)
+        if j == 0:
+            finish = "commit"
+        elif j == 1:
+            finish = "cancel" if (k // 2) % 2 == 0 else "commit"
+        else:
+            finish = rng.choice(["commit", "commit", "cancel"])
+        ops, touched = [], set()
+        for _ in range(rng.randint(3, 4) if tier == "quick" else rng.randint(3, 7)):
+            key = g.newkey()
+            touched.add(key)
+            ops.append(["add", g.doc(key, fs)])
+        live = sorted(kk for kk in model if kk not in touched)
+        if live and rng.random() < 0.6:
+            key = rng.choice(live)
+            touched.add(key)
+            op = ["del", key] if rng.random() < 0.5 else ["upd", g.doc(key, fs)]
+            ops.insert(rng.randrange(len(ops) + 1), op)
+        tx = {"ops": ops, "commit": rng.choice(["default", "nomerge", "nomerge", "optimize"]), "finish": finish,
+              "compound": rng.random() < 0.6, "front": "mp", "multiseg": multiseg,
+              "procs": 2 if tier == "quick" else rng.choice([2, 2, 3]), "batch": rng.choice([1, 1, 2])}
+        if rng.random() < 0.35:
+            tx["limitmb"] = 0.0002          # the sub-writers spill sorted runs into MAIN.tmp/ as well
+        txs.append(tx)
+        model, fs = model_apply(model, fs, tx)
+    return {"theme": "mp", "create_monitored": False, "prelude": prelude, "txs": txs, "genpad": 0}
+
+
+def run_history(ctx, idx, hist=None):
     from vf.tap import Tap, scratch_root
     from whoosh import index
     rng = ctx.rng(idx)
-    hist = gen_history(rng, idx, ctx.tier)
+    if hist is None:
+        hist = gen_history(rng, idx, ctx.tier)
     ctx.count("histories")
     ctx.count("theme." + hist["theme"])
     root = tempfile.mkdtemp(prefix="vf-c02-", dir=scratch_root())
@@ -765,20 +997,37 @@ def run_monitored_tx(ctx, tap, root, d, idx, j, tx, rng, wb, model, new_model, f
     crosscheck(ctx, "S_old", ref_old, model, fs, wb)
     run = TxRun(ctx, tap, root, d, idx, j, tx, rng, wb)
     run.states.append(comparable(ref_old))
-    if kill_budget > 0 and not tx.get("create"):
+    is_mp = tx.get("front") == "mp"
+    if kill_budget > 0 and not tx.get("create") and not is_mp:
         run.kill_prob = ctx.pick(0.004, 0.01)
+    rt, guard = None, None
+    if is_mp:
+        install_fork_hook()
+        rt = run.mp = {"phase": "feed", "hook": run.sample}
+        guard = _MpGuard(run, rt, MP_TIMEOUT_S)
+        ctx.count("mp.tx")
+        ctx.count("mp.tx.%s.%s" % ("multisegment" if tx.get("multiseg") else "merged", tx["finish"]))
     tap.reset_log()
     tap.on_event = run.on_event
     random.seed("c02-tx:%d:%d:%d" % (ctx.seed, idx, j))     # same seed string as the SIGKILL victim uses
     tap.resume()
     try:
-        exec_tx(d, tx)
+        if is_mp:
+            with guard:
+                exec_tx(d, tx, rt)
+        else:
+            exec_tx(d, tx)
     except Exception as e:  # noqa - the clean execution itself failed: not a crash-atomicity matter
         tap.pause()
         tap.on_event = None
         from vf.core import HarnessError
         if isinstance(e, HarnessError):
             raise
+        if is_mp and rt.get("timed_out"):
+            ctx.count("mp.watchdog_fired")
+            ctx.note("history %d tx %d: MpWriter transaction exceeded %d s; sub-writers killed by the harness (%r)" % (
+                idx, j, MP_TIMEOUT_S, e))
+            return False, info
         site = _site(e)
         ctx.fail("clean-execution", "exc:%s@%s" % (type(e).__name__, site), wb,
                  "".join(traceback.format_exception(type(e), e, e.__traceback__))[-2500:])
@@ -786,6 +1035,16 @@ def run_monitored_tx(ctx, tap, root, d, idx, j, tx, rng, wb, model, new_model, f
     finally:
         tap.pause()
         tap.on_event = None
+    if is_mp:
+        if rt.get("timed_out"):
+            ctx.count("mp.watchdog_fired")
+            ctx.note("history %d tx %d: MpWriter transaction exceeded %d s; sub-writers killed by the harness" % (
+                idx, j, MP_TIMEOUT_S))
+            return False, info
+        ctx.count("mp.tx.completed")
+        if rt.get("alive_at_return"):
+            # observation only: after cancel() the sub-writer processes are still there (blocked on the job queue)
+            ctx.count("mp.obs.subwriters_alive_after_%s" % tx["finish"], rt["alive_at_return"])
     nevents = tap.n
     # final crash point: the process dies after the transaction returned
     run.dirty = True
@@ -896,6 +1155,10 @@ def run_monitored_tx(ctx, tap, root, d, idx, j, tx, rng, wb, model, new_model, f
             ok = False
             break
         ctx.count("outcome.old" if m == lo else "outcome.new")
+        if is_mp:
+            ctx.count("mp.outcome.old" if m == lo else "mp.outcome.new")
+            if kind.startswith("sample-"):
+                ctx.count("mp.outcome.at_sample_points")
         seen.add(m)
         for lf in leftover:
             ctx.count("leftover." + lf.split(":")[0])
@@ -914,6 +1177,8 @@ def run_monitored_tx(ctx, tap, root, d, idx, j, tx, rng, wb, model, new_model, f
     if ok and committed and len(states) > 1:
         if len(seen) == len(states):
             ctx.count("tx.both_outcomes")
+            if is_mp:
+                ctx.count("mp.tx.both_outcomes")
             info["both"] = True
         else:
             ctx.count("tx.single_outcome")
@@ -951,6 +1216,63 @@ def run_monitored_tx(ctx, tap, root, d, idx, j, tx, rng, wb, model, new_model, f
         shutil.rmtree(ks["dir"], ignore_errors=True)
     shutil.rmtree(pre, ignore_errors=True)
     return ok, info
+
+
+MP_TIMEOUT_S = 60
+
+
+class _MpGuard(object):
+    """While one MpWriter transaction runs: (1) a watchdog timer kills the sub-writer processes after MP_TIMEOUT_S (a dead or
+    hung child then costs one transaction, which is dropped without a verdict), (2) SubWriterTask.join() - where the parent
+    waits, without any storage event of its own, for the sub-writers to finish their segments - polls and calls the
+    sample hook between polls."""
+
+    def __init__(self, run, rt, timeout_s):
+        self.run, self.rt, self.timeout_s = run, rt, timeout_s
+
+    def _fire(self):
+        self.rt["timed_out"] = True
+        w = self.rt.get("mpw")
+        if w is not None:
+            import signal
+            for t in list(w.tasks):
+                try:
+                    os.kill(t.pid, signal.SIGCONT)
+                    os.kill(t.pid, signal.SIGKILL)
+                except Exception:  # noqa
+                    pass
+
+    def __enter__(self):
+        import threading
+        from whoosh import multiproc
+        self.cls = multiproc.SubWriterTask
+        self.orig = orig = self.cls.__dict__.get("join")
+        base_join = self.cls.join
+        run, rt = self.run, self.rt
+
+        def join(task, timeout=None):
+            if timeout is None and not rt.get("timed_out"):
+                while run.nsamples.get("join", 0) < 8:
+                    base_join(task, 0.003)
+                    if task.exitcode is not None:
+                        break
+                    run.sample("join")
+            return base_join(task, timeout)
+        self.cls.join = join
+        self.timer = threading.Timer(self.timeout_s, self._fire)
+        self.timer.daemon = True
+        self.timer.start()
+        return self
+
+    def __exit__(self, *a):
+        self.timer.cancel()
+        if self.orig is None:
+            try:
+                del self.cls.join
+            except AttributeError:
+                pass
+        else:
+            self.cls.join = self.orig
 
 
 def keys_of(state):
@@ -1135,6 +1457,16 @@ def _candidate_cuts(st, data, lo, hi):
 # ----------------------------------------------------------------------
 
 def run(ctx):
-    for idx in ctx.cases(quick=2, thorough=6):
+    # per shard: one multi-process history first (quick) / at positions 0 and 4 (thorough), the single-process histories keep
+    # the indices (and therefore the generated content) they had before the multi-process cases existed
+    mp_at = (0,) if ctx.quick else (0, 4)
+    for idx in ctx.cases(quick=3, thorough=8):
         ctx.reseed_global(idx)
-        run_history(ctx, idx)
+        k = idx // ctx.nshards
+        shard = idx % ctx.nshards
+        if k in mp_at:
+            kk = mp_at.index(k) * ctx.nshards + shard
+            run_history(ctx, idx, gen_mp_history(ctx.rng(idx, "mp"), kk, ctx.tier))
+        else:
+            hk = k - sum(1 for m in mp_at if m < k)
+            run_history(ctx, hk * ctx.nshards + shard)
